@@ -10,7 +10,7 @@ from .. import common as C
 from .. import flock_drv as D
 
 PROP = 'C12'
-READY = False
+READY = True
 PROPS_MODULE = 'C12'
 MODEL_TARGETS = ['theories/Case_C12.vo']
 HEADER = ('From Coq Require Import List NArith. Import ListNotations.\n'
@@ -319,14 +319,24 @@ def distribution(cases, obs):
     return d
 
 
-LEVEL_TEXT = ('FileLock (acquire/acquire_ctx/with/release/release(force), Lock and RLock flavour, OS faults) is modelled step '
-              'for step in coq/theories/FLock.v; props/C12.v proves for ALL contract-respecting call sequences that results '
-              'and state refine the 40-line Lock/RLock specification FLockSpec.v (acquire True iff the caller now holds, '
-              'is_locked iff held, only the outermost release frees, a second acquire of a non-reentrant lock is refused, '
-              're-acquirable after full/forced release), that a failing acquire leaves objects and descriptors unchanged under '
-              'ANY fault script, that release gives the lock up even if unlocking raises, non-blocking = zero elapsed, timed '
-              '<= T + T + poll.  Tied to /repo by running the real class on a real lock file under gated threads and '
-              'comparing every observation with the model inside Coq.')
+LEVEL_TEXT = ('FileLock (acquire / acquire_ctx / with / release / release(force), Lock and RLock flavour, OSError script) is '
+              'modelled step for step (coq/theories/FLock.v); do_call runs one call to completion with its thread alone '
+              '(virtual time).  props/C12.v proves (lemmas: FLockAcq.v phase invariant of a running acquire, FLockRel.v, '
+              'FLockTerm.v termination measure, FLockSeq.v): for EVERY reachable state and EVERY fault script '
+              'fail_no_residue (a failing acquire - False / TimeoutError / re-raised OSError - leaves every object, the table '
+              'of open descriptors and the kernel holder exactly as before, caller idle and not inside), '
+              'nonblocking_immediate (no virtual time passes, never blocks), timed_bound (elapsed <= T + T + poll, never '
+              'blocks), release_faults (a release that gives the OS lock up ends normally with descriptor closed, counter 0, '
+              'lock not held through it, even if unlock/close raise); and for sequences of calls without scripted faults '
+              'refines_rlock_spec (from the initial state of the correspondence runs, every contract-respecting sequence by any '
+              'threads on any objects gives exactly the results of the abstract Lock/RLock spec FLockSpec.v, and the final '
+              'state represents the spec state: is_locked iff held, counter = RLock depth, thread lock free iff unheld) with '
+              'the corollaries acquire_true_iff_holds, reacquire_after_release (F6), nonreentrant_refuses_second_acquire, '
+              'only_outermost_release_frees.  Tied to /repo by differential correspondence on enumerated and random call '
+              'sequences with fault injection, evaluated by vm_compute.')
 LEVEL_NOTE = ('trusted: Coq kernel + vm_compute; no axioms; kernel flock semantics and threading.Lock/RLock are modelled '
-              'primitives validated by the correspondence (shim table vs kernel answers on every syscall); time is virtual')
-TECHNIQUE = 'Coq proof (refinement of an abstract lock spec by a small-step model, big-step do_call) + differential correspondence evaluated by vm_compute'
+              'primitives (assumption, checked against the shim table on every run); the refinement theorem is about one '
+              'process, no scripted faults, timed acquires with poll >= 1 and fuel >= 5*((T+poll)/poll)+16 per acquire (proved '
+              'sufficient); the four every-fault-script theorems are about all reachable states incl. several processes; '
+              'contract: a thread releases only a lock it holds or an unheld one (ok_calls)')
+TECHNIQUE = 'Coq proof (refinement of an abstract lock spec by a small-step model, big-step do_call, phase invariant + termination measure) + differential correspondence evaluated by vm_compute'
